@@ -79,10 +79,13 @@ def _shape_sets(tier):
     for a, b, c in [(TS(base), TS(base, 330), TS(base + 1)), (TS(base, -300), TS(base, 0), TS(base, 840)), (TS(base, 60), TS(base - 3600000000, 0), TS(base + 1000, -720)),
                     (TS(0), TS(-1, 1), TS(1, -1)), (TS(-62135596800000000), TS(-62135596800000000 + 50400000000, 840), TS(253402300799000000, -60))]:
         out.append(("timestamp", [a, b, c]))
+    # distinct instants inside one UTC second, written with different offsets; a duration pair below one microsecond apart
+    for a, b, c in [(TS(base + 250000, 120), TS(base + 750000), TS(base + 250000)), (TS(base + 999999, -90), TS(base + 1000000, 330), TS(base, 0)), (TS(1, 0), TS(0, 60), TS(-1, -60))]:
+        out.append(("timestamp", [a, b, c]))
     TX = lambda us, off=0: ("const", {"t": "timestamp", "us": us, "off": off, "text": True})
     for a, b, c in [(TX(base, -210), TS(base), TX(base + 1000000, 330)), (TX(base, -30), TX(base, 30), TX(base, -570)), (TX(base - 1000000, -90), TX(base, 0), TS(base, -45))]:
         out.append(("timestamp", [a, b, c]))
-    for a, b, c in [(DU(0), DU(0), DU(1)), (DU(-1000000), DU(1000000), DU(999999)), (DU(315576000000000000), DU(-315576000000000000), DU(86400000000))]:
+    for a, b, c in [(DU(0), DU(0), DU(1)), (DU(-1000000), DU(1000000), DU(999999)), (DU(1500000), DU(1500001), DU(1000000)), (DU(-1), DU(0), DU(1)), (DU(315576000000000000), DU(-315576000000000000), DU(86400000000))]:
         out.append(("duration", [a, b, c]))
     return out
 
